@@ -9,6 +9,8 @@
 package verifsync
 
 import (
+	"reflect"
+	"runtime"
 	"sync"
 	"sync/atomic"
 	"unsafe"
@@ -252,4 +254,78 @@ func poolRaceAddr(x interface{}) unsafe.Pointer {
 	ptr := uintptr((*[2]unsafe.Pointer)(unsafe.Pointer(&x))[1])
 	h := uint32((uint64(uint32(ptr)) * 0x85ebca6b) >> 16)
 	return unsafe.Pointer(&poolRaceHash[h%uint32(len(poolRaceHash))])
+}
+
+// ---------------------------------------------------------------------------
+// Finalizers. The instrumenter rewrites runtime.SetFinalizer into SetFinalizer:
+// the garbage collector still decides WHEN an object is found unreachable, but
+// the finalizer itself - code of the package under test - never runs on the
+// runtime's finalizer goroutine. It is queued, and the simulator runs the queue
+// on a goroutine it owns, between two simulated operations (RunFinalizers).
+
+var (
+	finMu    sync.Mutex
+	finQueue []func()
+	finCount int64
+	finSet   int64 // SetFinalizer calls so far in this process
+)
+
+// FinalizersRegistered: how often the package under test has called
+// SetFinalizer in this process.
+func FinalizersRegistered() int { return int(atomic.LoadInt64(&finSet)) }
+
+// SetFinalizer stands in for runtime.SetFinalizer.
+func SetFinalizer(obj interface{}, finalizer interface{}) {
+	if finalizer == nil {
+		runtime.SetFinalizer(obj, nil)
+		return
+	}
+	atomic.AddInt64(&finSet, 1)
+	fv := reflect.ValueOf(finalizer)
+	if fv.Kind() != reflect.Func {
+		runtime.SetFinalizer(obj, finalizer) // let the runtime complain
+		return
+	}
+	ft := fv.Type()
+	wrapper := reflect.MakeFunc(ft, func(args []reflect.Value) []reflect.Value {
+		kept := append([]reflect.Value(nil), args...)
+		finMu.Lock()
+		finQueue = append(finQueue, func() { fv.Call(kept) })
+		finMu.Unlock()
+		atomic.AddInt64(&finCount, 1)
+		out := make([]reflect.Value, ft.NumOut())
+		for i := range out {
+			out[i] = reflect.Zero(ft.Out(i))
+		}
+		return out
+	})
+	runtime.SetFinalizer(obj, wrapper.Interface())
+}
+
+// PendingFinalizers is the number of queued finalizers (one atomic load).
+func PendingFinalizers() int { return int(atomic.LoadInt64(&finCount)) }
+
+// RunFinalizers runs the queued finalizers on the calling goroutine, in the
+// order in which the collector queued them, and returns how many it ran.
+func RunFinalizers() int {
+	if atomic.LoadInt64(&finCount) == 0 {
+		return 0
+	}
+	finMu.Lock()
+	q := finQueue
+	finQueue = nil
+	atomic.StoreInt64(&finCount, 0)
+	finMu.Unlock()
+	for _, f := range q {
+		f()
+	}
+	return len(q)
+}
+
+// DropFinalizers forgets the queued finalizers (start of a new simulated run).
+func DropFinalizers() {
+	finMu.Lock()
+	finQueue = nil
+	atomic.StoreInt64(&finCount, 0)
+	finMu.Unlock()
 }
